@@ -91,6 +91,7 @@ class Recorder(BaseStrategy):
         self.closed_calls = []
         self.placed = {}
         self.was_closed = set()
+        self.was_reopened = set()  # no new orders after a re-open (the closing summaries are compared with the orders placed before)
         self.fault_at = None  # index of the callback at which a call made under real_time() raises (contained by the framework)
         self.ncb = 0
 
@@ -105,19 +106,27 @@ class Recorder(BaseStrategy):
         now = _dt.datetime.utcnow()
         if now != market_book.publish_time:
             self.fail("C14", "clock %s != publish time %s of the update being processed" % (now, market_book.publish_time))
+            if self.fault_at is not None and self.ncb >= self.fault_at:
+                # C13: the exception raised inside the callback was contained, but the framework's state did not stay consistent
+                self.fail("C13", "after a contained callback exception (raised under real_time() at callback %d) the framework clock is the wall clock: %s != publish time %s" % (self.fault_at, now, market_book.publish_time))
         self.seq.append((market.market_id, market_book.publish_time_epoch, "book"))
         if market.market_id in self.was_closed:
             self.was_closed.discard(market.market_id)
+            self.was_reopened.add(market.market_id)
             if market.closed or market.orders_cleared or market.market_cleared:
                 self.fail("C20", "market %s got data again after a close but is not re-opened with its cleared lists reset (closed=%s orders_cleared=%s market_cleared=%s)" % (market.market_id, market.closed, market.orders_cleared, market.market_cleared))
-        if market.market_id not in self.placed and market_book.status == "OPEN":
-            os_ = []
-            for s, h in [(s, h) for s in SELS for h in LINES.get(market.market_id, (0,))]:
+        if market_book.status == "OPEN":
+            # one order per update and market (so that the runner contexts of concurrently open markets are created interleaved)
+            os_ = self.placed.setdefault(market.market_id, [])
+            keys_ = [(s, h) for s in SELS for h in LINES.get(market.market_id, (0,))]
+            if len(os_) < len(keys_) and market.market_id not in self.was_reopened:
+                s, h = keys_[len(os_)]
                 tr = Trade(market.market_id, s, h, self)
-                o = tr.create_order("BACK", LimitOrder(2.2, 2.0))  # crosses: matched at once
+                o = tr.create_order("BACK", LimitOrder(2.2, 2.0))
                 if market.place_order(o):
                     os_.append(o)
-            self.placed[market.market_id] = os_
+                else:
+                    os_.append(None)
         self.ncb += 1
         if self.fault_at is not None and self.ncb == self.fault_at:
             # a strategy doing real I/O under the real clock hits a fault; the framework contains the exception (C13) and the
@@ -286,6 +295,12 @@ def main():
             n_closed = sum(1 for exp in expected.values() for pt, kind, w in exp if kind == "closed")
             if len(st.closed_calls) != n_closed:
                 failures.setdefault("C20", []).append("%d closing updates, %d closed-market callbacks" % (n_closed, len(st.closed_calls)))
+            # C20: strategy runner accounting for a market is released when the market is removed (in simulation: at its closure),
+            # whatever the order in which the contexts of concurrently open markets were created
+            ends_closed = {mid for mid, exp in expected.items() if exp and exp[-1][1] == "closed"}
+            left = sorted({k[0] for k in st._invested if k[0] in ends_closed})
+            if left:
+                failures.setdefault("C20", []).append("after the run the strategy still holds runner contexts of removed market(s) %s (%d contexts in all)" % (left, len(st._invested)))
             if len(lc.cleared_markets) != n_closed:
                 failures.setdefault("C20", []).append("%d closing updates, %d cleared-market summaries" % (n_closed, len(lc.cleared_markets)))
             if sum(len(v) for v in failures.values()) > 6:
